@@ -73,6 +73,8 @@ fn read_part_files() -> Vec<PartFile> {
 }
 
 struct Caps {
+    /// words one lds/sts takes on this device (None: the device has no lds/sts)
+    lds_words: Option<u64>,
     name: Option<String>,
     flash: u64,
     eeprom: u64,
@@ -83,8 +85,9 @@ struct Caps {
 
 fn caps_of(d: Option<&DeviceRow>) -> Caps {
     match d {
-        None => Caps { name: None, flash: sut::DEFAULT_FLASH_WORDS as u64, eeprom: sut::DEFAULT_EEPROM as u64, ram: sut::DEFAULT_RAM as u64, ram_start: sut::DEFAULT_RAM_START as u64, two_word: Some("jmp 0") },
+        None => Caps { lds_words: Some(2), name: None, flash: sut::DEFAULT_FLASH_WORDS as u64, eeprom: sut::DEFAULT_EEPROM as u64, ram: sut::DEFAULT_RAM as u64, ram_start: sut::DEFAULT_RAM_START as u64, two_word: Some("jmp 0") },
         Some(d) => Caps {
+            lds_words: if d.flags.contains("Tiny1x") { None } else if d.flags.contains("Avr8l") { Some(1) } else { Some(2) },
             name: Some(d.name.clone()),
             flash: d.flash_words as u64,
             eeprom: d.eeprom_size as u64,
@@ -131,6 +134,25 @@ fn programs(c: &Caps, mem: &str, n: u64) -> Vec<(&'static str, String, Option<u6
                 if n >= 2 {
                     v.push(("two-word-instruction-at-end", format!("{}.org {}\n{}\n", dev, n - 2, i2), None));
                 }
+            }
+            // filled with instructions (devices up to 64 K words: the source grows with n)
+            if n <= 65537 {
+                v.push(("nop-lines", format!("{}{}", dev, "nop\n".repeat(n as usize)), None));
+                if let Some(lw) = c.lds_words {
+                    // lds/sts lines (one word each on the reduced core, two elsewhere) + nops for the rest
+                    let k = n / lw;
+                    let mut s = dev.clone();
+                    for i in 0..k {
+                        s.push_str(if i % 2 == 0 { "lds r16, 0x60\n" } else { "sts 0x61, r17\n" });
+                    }
+                    s.push_str(&"nop\n".repeat((n - k * lw) as usize));
+                    v.push(("lds-sts-lines", s, None));
+                }
+                // the same through macro expansion
+                let mut s = format!("{}.macro sixteen\n{}.endm\n", dev, "nop\n".repeat(16));
+                s.push_str(&"sixteen\n".repeat((n / 16) as usize));
+                s.push_str(&"nop\n".repeat((n % 16) as usize));
+                v.push(("macro-expanded-nops", s, None));
             }
         }
         "eeprom" => {
